@@ -14,11 +14,11 @@ USES = {
  'C06': ['Slice', 'Str', 'Bytes', 'Bytes2', 'StrFns', 'Split', 'SplitTerm', 'ProbesMisc'],
  'C07': ['Chr', 'Str', 'Slice', 'StrFns', 'Chars'],
  'C08': ['Slice', 'SliceFns', 'SliceIter', 'SliceIter2'],
- 'C09': ['Range', 'RangeIter'],
- 'C12': ['Str', 'ParseInt', 'ParsePrim', 'ParseWith'],
- 'C13': ['Str', 'StrFns', 'ParserA', 'ParserB', 'ParseInt', 'ParseWith'],
+ 'C09': ['Range', 'Range2', 'RangeIter'],
+ 'C12': ['Str', 'ParseInt', 'ParsePrim', 'ParseWith', 'ParseInt2'],
+ 'C13': ['Str', 'StrFns', 'ParserA', 'ParserB', 'ParseInt', 'ParseWith', 'ParseInt2'],
  'C14': ['Bytes', 'Bytes2', 'BytesTrim', 'StrFns', 'ParserA', 'ParserB', 'ParseInt'],
- 'C16': ['Cmp', 'Cmp2', 'ProbesMisc'],
+ 'C16': ['Cmp', 'Cmp2', 'Cmp3', 'Cmp4', 'ProbesMisc'],
  'C18': ['StrFns', 'ParserA', 'ProbesPm'],
  'C20': ['Chr', 'Slice', 'Concat', 'SliceConcat', 'CStr', 'CStr2'],
  'C19': ['ProbesOpt', 'ProbesMisc'],
